@@ -21,12 +21,20 @@ type step struct {
 	Health     string            `json:"health,omitempty"`     // revision controller sets Healthy=True|False on the current revision
 	Activate   string            `json:"activate,omitempty"`   // user sets desiredState Active on the "current" or the "oldest" other revision
 	Settle     int               `json:"settle,omitempty"`     // max reconciles before the next step (default 6)
+	// histories with Finalizers only: the user deletes the "current" / "oldest" other revision
+	// (it stays, terminating, until the revision controller releases it)
+	DeleteRev string `json:"deleteRev,omitempty"`
+	// the revision controller finalizes every terminating revision
+	Release bool `json:"release,omitempty"`
 }
 
 type history struct {
 	Name  string `json:"name"`
 	Kind  string `json:"kind"`
 	Steps []step `json:"steps"`
+	// Finalizers: the revision controller holds its finalizer on every revision it has seen
+	// (as in production), so a deleted revision lingers in Terminating state
+	Finalizers bool `json:"finalizers,omitempty"`
 }
 
 const maxSettle = 6
@@ -98,6 +106,14 @@ func baseHistories(thorough bool) []history {
 			{Source: v1, Limit: lim(3), Activation: "Automatic", Pull: "IfNotPresent"},
 			{Source: v2}, {Source: v3}, {Source: v1, Limit: lim(1)}, {Source: v2},
 		}},
+		{Name: "terminating-active-revision", Finalizers: true, Steps: []step{
+			{Source: v1, Limit: lim(1), Activation: "Automatic", Pull: "IfNotPresent"},
+			{DeleteRev: "current"}, {Source: v2}, {Release: true}, {Source: v3}, {DeleteRev: "oldest"}, {Source: v1}, {Release: true}, {Source: v4},
+		}},
+		{Name: "terminating-revisions-manual", Finalizers: true, Steps: []step{
+			{Source: v1, Limit: lim(2), Activation: "Manual", Pull: "IfNotPresent"},
+			{Activate: "current"}, {Source: v2}, {DeleteRev: "oldest"}, {Activation: "Automatic"}, {Source: v3}, {Release: true}, {DeleteRev: "current"}, {Source: v1}, {Release: true},
+		}},
 		{Name: "rollback-before-collection", Steps: []step{
 			{Source: v1, Limit: lim(1), Activation: "Automatic", Pull: "IfNotPresent"},
 			{Source: v2}, {Source: v3, Settle: 1}, {Source: v1}, {Source: v4},
@@ -128,7 +144,7 @@ func randomHistory(r *rand.Rand, i int) history {
 		}
 		return "Automatic"
 	}
-	h := history{Name: fmt.Sprintf("rand-%d", i), Kind: kinds[r.IntN(len(kinds))].Kind}
+	h := history{Name: fmt.Sprintf("rand-%d", i), Kind: kinds[r.IntN(len(kinds))].Kind, Finalizers: r.IntN(3) == 0}
 	cur := pick(sources)
 	used := []string{cur}
 	activation := act()
@@ -188,6 +204,14 @@ func randomHistory(r *rand.Rand, i int) history {
 		}
 		if r.IntN(12) == 0 {
 			st.Settle = 1 + r.IntN(2)
+		}
+		if h.Finalizers {
+			switch r.IntN(6) {
+			case 0:
+				st.DeleteRev = pick([]string{"current", "oldest"})
+			case 1:
+				st.Release = true
+			}
 		}
 		h.Steps = append(h.Steps, st)
 	}
